@@ -145,6 +145,10 @@ string error_handler(mapping err, int caught) {
       tf += (i ? "|" : "") + tr[i]["file"];
     }
   rec(s + " tfiles=" + tf);
+#ifdef EH_CATCH
+  // a handler that protects its own logging with catch(), as real mudlibs do
+  { mixed e2; e2 = catch(error("inner error of the error handler\n")); e2 = catch(tf = tf + ""); }
+#endif
 #ifdef EH_RAISE
   if (EH_RAISE == 1 || (EH_RAISE == 2 && eh_count <= 2)) error("error_handler bomb\n");
 #endif
